@@ -59,13 +59,16 @@ static void op_rtgen(int nt, char **t) {
     int touched = 0;
     for (size_t i = r; i < LIBWIFI_MAX_RADIOTAP_LEN; i++) touched |= buf[i] != 0xEE;
     if (touched) printf(" BEYOND");
-    /* decode exactly the bytes produced */
-    unsigned char *gen = __real_malloc(r); memcpy(gen, buf, r);
+    /* decode exactly the bytes produced, from a block that puts them at an alignment derived from the selection
+       (0..7): a decoder must not care where the header sits in memory */
+    size_t mis = (size_t) ((in.present ^ (in.present >> 3) ^ r) % 8);
+    unsigned char *gbase = __real_malloc(mis + r);
+    unsigned char *gen = gbase + mis; memcpy(gen, buf, r);
     struct libwifi_radiotap_info out; memset(&out, prefill, sizeof out);
     int pr;
     LIB(pr = libwifi_parse_radiotap_info(&out, gen, r));
     if (pr != 0) printf(" parse=err"); else { printf(" parse=ok "); print_rtinfo(&out); }
-    hfree(gen); hfree(buf);
+    __real_free(gbase); hfree(buf);
 }
 
 const struct op ops_rtap[] = {
